@@ -135,11 +135,16 @@ class Check:
                   `run(case, rec)` as above.
     kind 'custom': `custom(ctx)` does everything itself (ctx: tier, seed, shard, nshards,
                   rec, report(violation, case)).
+    kind 'fuzz' : coverage-guided campaign (atheris/libFuzzer) in a child process:
+                  `decode(data: bytes)` maps the fuzzer's bytes to a JSON-able case (or None),
+                  `run(case, rec)` is the oracle, `corpus()` returns the seed inputs used by the
+                  odd shards (even shards start from an empty corpus); `examples` = executions.
     """
 
     def __init__(self, name, run=None, strategy=None, cases=None, custom=None,
                  examples=(200, 2000), shards=(4, 16), rule="", exhaustive=False,
-                 kind=None, env=None, variant="plain"):
+                 kind=None, env=None, variant="plain", decode=None, corpus=None,
+                 fuzz_modules=("Crypto",), max_len=512):
         self.name = name
         self.run = run
         self.strategy = strategy
@@ -149,7 +154,11 @@ class Check:
         self.shards = {"quick": shards[0], "thorough": shards[1]}
         self.rule = rule
         self.exhaustive = exhaustive
-        self.kind = kind or ("hyp" if strategy else "enum" if cases else "custom")
+        self.decode = decode
+        self.corpus = corpus
+        self.fuzz_modules = tuple(fuzz_modules)
+        self.max_len = max_len
+        self.kind = kind or ("fuzz" if decode else "hyp" if strategy else "enum" if cases else "custom")
         self.env = dict(env or {})          # extra environment of the worker process
         self.variant = variant              # build variant: plain | asan
 
